@@ -272,3 +272,18 @@ package experiment
 //@   ensures [len] len(result) == len(e.Trials) && fresh(result)
 //@   loop 1:
 //@     invariant -1 <= #idx && #idx < len(e.Trials) && len(x) == len(e.Trials) && fresh(x)
+
+// Average winner statistics: only trials that Solved() has just reported solved are consulted, each exactly once; no solved trial
+// means (-1,-1,-1,-1).
+//@ ghost gLastSolved Bool
+//@ func (*Experiment).AvgWinnerStatistics
+//@   props C19
+//@   mode nosafety
+//@   assume_pre WinnerStatistics
+//@   requires e != nil
+//@   set gLastSolved = result @ after 1 Solved
+//@   assert [onlySolvedTrials] gLastSolved @ before * WinnerStatistics
+//@   ensures_local [none] count == 0 ==> result0 == 0.0 - 1.0 && result1 == 0.0 - 1.0 && result2 == 0.0 - 1.0 && result3 == 0.0 - 1.0
+//@   ensures_local [means] count > 0 ==> result0 == real(totalNodes) / real(count) && result1 == real(totalGenes) / real(count) && result2 == real(totalEvals) / real(count) && result3 == real(totalDiversity) / real(count)
+//@   loop 1:
+//@     invariant -1 <= #idx && 0 <= count && count <= #idx + 1
